@@ -42,7 +42,7 @@ def run(ctx):
         # (the other row flags only add to the namespace set / the launcher's inheritable+ambient sets)
         rest = [0, 256, 128, 8 | 16 | 32 | 64, 256 | 128, 64 | 256, 8 | 128, 16 | 32 | 256]
         rows = {(a | b | c) | rest[(a + b + c) % 8] for a in (0, 1) for b in (0, 2) for c in (0, 4)} | {511}
-    import threading, time
+    import threading, time, json
     mc = {}
 
     def do_mc():
@@ -69,7 +69,15 @@ def run(ctx):
             pairs.add(((y * 8 + x) * 512 + s) * 512 + rw)
     for _ in range(ctx.pick(24, 100)):
         pairs.add(((rng.randrange(9) * 8 + rng.randrange(8)) * 512 + rng.randrange(512)) * 512 + rng.randrange(512))
-    g, _, _ = lc.par(lambda: ctx.tlc("Launch_Gen", cfg="CONSTANTS\n  C04Pairs = {%s}\n  C07Bases = {}\nINIT Init\nNEXT Next\n" % ",".join(map(str, sorted(pairs))),
+    # container-sequence family: after the fixed gate prefix (Launch_Gen!SeqGate) a seeded walk over the 24
+    # container option records; consecutive positions are the (earlier, later) pairs
+    seqidx, last = [], 0
+    for i in range(1, ctx.pick(13, 60)):
+        k = rng.choice([x for x in range(24) if x != last])
+        seqidx.append(i * 32 + k)
+        last = k
+    g, _, _ = lc.par(lambda: ctx.tlc("Launch_Gen", cfg="CONSTANTS\n  C04Pairs = {%s}\n  C04Seq = {%s}\n  C07Bases = {}\nINIT Init\nNEXT Next\n" % (
+        ",".join(map(str, sorted(pairs))), ",".join(map(str, seqidx))),
                                       timeout=600, count=False),
                      lambda: ctx.build_vdrive("launch"), lambda: lc.build_probe(ctx))     # build while TLC generates
     ctx.tlc_ok("Launch_Gen", g)
@@ -80,6 +88,22 @@ def run(ctx):
     ctx.log("generated %d cases (%d site combinations)" % (len(cases), len({c["s"] for c in cases})))
 
     # ---- 3. real launches
+    seqcases = sorted(ctx.read_ndjson(os.path.join(g.dir, "c04seq.ndjson")), key=lambda q: q["pos"])
+    seqres = {}
+
+    def do_seq():
+        try:
+            cf = ctx.path("seq", "cases.ndjson")
+            with open(cf, "w") as fh:
+                for q in seqcases:
+                    fh.write(json.dumps(q) + "\n")
+            of = ctx.path("seq", "obs.ndjson")
+            ctx.vdrive("launch", ["c04seq", cf, of, ctx.mkdir("seq", "s"), lc.build_probe(ctx)], timeout=600)
+            seqres["obs"] = ctx.read_ndjson(of)
+        except Exception as ex:
+            seqres["err"] = ex
+    seqt = threading.Thread(target=do_seq)
+    seqt.start()
     obs, _ = lc.run_chunks(ctx, "c04", cases, "plain", par=4, timeout=ctx.pick(300, 1500))
     st_pool = [c for c in cases if not c["nostrace"]]
     rng.shuffle(st_pool)
@@ -91,6 +115,11 @@ def run(ctx):
     sobs, logs = lc.run_chunks(ctx, "c04", st_cases, "strace", par=4, strace=True, timeout=ctx.pick(300, 1500))
     ctx.log("launches: %d plain, %d under strace" % (len(obs), len(sobs)))
     allobs = obs + sobs
+    seqt.join()
+    if "err" in seqres:
+        raise Inconclusive("container-sequence driver failed: %s" % seqres["err"])
+    seqobs = seqres["obs"]
+    ctx.log("container sequence: %d Execve calls on one environment" % len(seqobs))
 
     # ---- 1b. the design-level result
     mct.join()
@@ -114,7 +143,7 @@ def run(ctx):
         traces.append({"id": cid, "opt": o["opt"], "req": {"uid": o["req"]["uid"], "gid": o["req"]["gid"], "hostlen": len(o["req"]["host"]), "domlen": len(o["req"]["domain"])},
                        "child": p["child"], "parent": p["parent"]})
     trace_gap = len(traces) < sum(1 for o in sobs if o["started"]) * 0.9
-    j, t = lc.par(lambda: ctx.tlc("Launch_Judge", files={"c04obs.ndjson": allobs}, timeout=900, count=False),
+    j, t = lc.par(lambda: ctx.tlc("Launch_Judge", files={"c04obs.ndjson": allobs, "c04seqobs.ndjson": seqobs}, timeout=900, count=False),
                   lambda: ctx.tlc("Launch_Trace", files={"ltraces.ndjson": traces}, timeout=1200, dfs=True) if traces else None)
     ctx.tlc_ok("Launch_Judge", j)
     bad = ctx.read_ndjson(os.path.join(j.dir, "c04bad.ndjson"))
@@ -142,6 +171,18 @@ def run(ctx):
         else:
             key = "%s:%s" % (what, b["sig"])
         ctx.violation(key, "C04 clause '%s' violated for options [%s]" % (what, " ".join(lc.opt_on(o["opt"]))), slim(o))
+    for b in ctx.read_ndjson(os.path.join(j.dir, "c04seqbad.ndjson")):
+        o = seqobs[b["i"] - 1]
+        tag = "%s at position %d of the container sequence: [%s] after [%s]" % (b["what"], b["pos"], b["cur"], b["prev"])
+        if b["j"] == "setup":
+            setups.append("container sequence: " + b["what"])
+        elif b["j"] == "drift":
+            drift += 1
+            if drift <= 8:
+                ctx.note("DRIFT " + tag)
+        else:
+            ctx.violation("%s:%s>%s" % (b["what"], b["prev"], b["cur"]), "C04 (container path) " + tag, o)
+    ctx.cov["container_sequence_execves"] = len(seqobs)
     ctx.cov["kernel_truth_mismatches"] = truth
     # set-up trouble makes the run inconclusive unless a real breach was observed anyway
     if setups and not ctx.violations:
@@ -177,6 +218,7 @@ def run(ctx):
         ctx.sample({"id": traces[0]["id"], "child": [e["n"] for e in traces[0]["child"]], "parent": [e["n"] for e in traces[0]["parent"]]})
     ctx.assumptions += [
         "the launcher carries supplementary groups {4242, 4343}; in a user namespace whose setgroups file says deny the kernel lets nobody change the groups, so 'requested groups' is judged only where setgroups is allowed (the code skips the call for deny + empty list; deny + non-empty list is refused by the kernel and is a C07 recipe)",
+        "container path: the Execve calls of one sequence share ONE pre-forked environment; filter f1 / f2 answer personality(2) with errno 77 / 78",
         "launcher is root without CAP_SYS_RESOURCE; requested ids are mapped 1:1 when a user namespace is used",
         "pivot root is only run with a mount namespace and host/domain name only with a UTS namespace (anything else would reconfigure the host)",
         "'capability sets' = effective, permitted, inheritable, ambient (the bounding set is recorded, not judged)",
